@@ -35,6 +35,7 @@ const (
 	vSym // a quoted symbol (only as argument of set/export/... and as macro expansion)
 	vFun
 	vList
+	vStr
 )
 
 type val struct {
@@ -103,6 +104,8 @@ func (v val) desc() string {
 		return v.s
 	case vSym:
 		return "'" + v.s
+	case vStr:
+		return "\"" + v.s + "\""
 	case vFun:
 		kind := "fun"
 		if v.f.macro {
@@ -130,6 +133,8 @@ func (v val) text() string {
 		return v.s
 	case vSym:
 		return "'" + v.s
+	case vStr:
+		return "\"" + v.s + "\""
 	case vList:
 		if len(v.l) == 0 {
 			return "()"
@@ -293,8 +298,25 @@ func (in *interp) eval(n *node, lex *frame) (val, *merr) {
 			return val{k: vSym, s: c.s}, nil
 		case 'i':
 			return val{k: vInt, n: c.i}, nil
+		case 't':
+			return val{k: vStr, s: c.s}, nil
+		case 'l':
+			// a quoted list is data: its elements are not evaluated
+			l := make([]val, 0, len(c.kids))
+			for _, e := range c.kids {
+				v, err := in.eval(nQ(e), lex)
+				if err != nil {
+					return val{}, err
+				}
+				l = append(l, v)
+			}
+			return val{k: vList, l: l}, nil
+		case 'q':
+			return in.eval(c, lex)
 		}
 		panic("c08 model: unsupported quoted term " + n.render())
+	case 't':
+		return val{k: vStr, s: n.s}, nil
 	case 's':
 		return in.lookup(n.s, lex)
 	case 'l':
@@ -434,11 +456,11 @@ func (in *interp) evalList(n *node, lex *frame) (val, *merr) {
 			}
 			return val{}, in.errf(c, "raised")
 		case "in-package":
-			return in.formInPackage(args)
+			return in.formInPackage(args, lex)
 		case "export":
-			return in.formExport(args)
+			return in.formExport(args, lex)
 		case "use-package":
-			return in.formUsePackage(args)
+			return in.formUsePackage(args, lex)
 		case "load-string":
 			return in.formLoad(args)
 		}
@@ -731,10 +753,22 @@ func (in *interp) formFlet(args []*node, lex *frame, recursive bool) (val, *merr
 	return res, nil
 }
 
-func (in *interp) formInPackage(args []*node) (val, *merr) {
-	name, ok := args[0].quotedSym()
-	if !ok {
-		panic("c08 model: in-package needs a quoted name")
+// designator: a package or symbol name given as a symbol or as a string.
+func (in *interp) designator(n *node, lex *frame) (string, *merr) {
+	v, err := in.eval(n, lex)
+	if err != nil {
+		return "", err
+	}
+	if v.k != vSym && v.k != vStr {
+		panic("c08 model: the alphabet only names packages by symbol or string: " + n.render())
+	}
+	return v.s, nil
+}
+
+func (in *interp) formInPackage(args []*node, lex *frame) (val, *merr) {
+	name, err := in.designator(args[0], lex)
+	if err != nil {
+		return val{}, err
 	}
 	if in.st.pkgs[name] == nil {
 		// A new package starts with the language package's exports (the
@@ -760,26 +794,61 @@ func (in *interp) formInPackage(args []*node) (val, *merr) {
 	return nilVal, nil
 }
 
-func (in *interp) formExport(args []*node) (val, *merr) {
+// formExport: the export set grows by the union of all names mentioned at any
+// depth of the arguments (symbols, strings, lists of those, nested).
+func (in *interp) formExport(args []*node, lex *frame) (val, *merr) {
 	p := in.st.pkgs[in.st.cur]
-	for _, a := range args {
-		name, ok := a.quotedSym()
-		if !ok {
-			panic("c08 model: export needs quoted names")
+	var add func(v val)
+	add = func(v val) {
+		switch v.k {
+		case vSym, vStr:
+			if !contains(p.exports, v.s) {
+				p.exports = append(p.exports, v.s)
+				sort.Strings(p.exports)
+			}
+		case vList:
+			for _, e := range v.l {
+				add(e)
+			}
+		case vNil:
+		default:
+			panic("c08 model: the alphabet only exports symbols, strings and lists of them")
 		}
-		if !contains(p.exports, name) {
-			p.exports = append(p.exports, name)
-			sort.Strings(p.exports)
+	}
+	vals := make([]val, 0, len(args))
+	for _, a := range args {
+		v, err := in.eval(a, lex)
+		if err != nil {
+			return val{}, err
+		}
+		vals = append(vals, v)
+	}
+	for _, v := range vals {
+		add(v)
+	}
+	return nilVal, nil
+}
+
+// formUsePackage imports the named packages one after the other; the first
+// failure stops it (earlier imports stay).
+func (in *interp) formUsePackage(args []*node, lex *frame) (val, *merr) {
+	names := make([]string, 0, len(args))
+	for _, a := range args {
+		n, err := in.designator(a, lex)
+		if err != nil {
+			return val{}, err
+		}
+		names = append(names, n)
+	}
+	for _, n := range names {
+		if _, err := in.usePackage(n); err != nil {
+			return val{}, err
 		}
 	}
 	return nilVal, nil
 }
 
-func (in *interp) formUsePackage(args []*node) (val, *merr) {
-	name, ok := args[0].quotedSym()
-	if !ok {
-		panic("c08 model: use-package needs a quoted name")
-	}
+func (in *interp) usePackage(name string) (val, *merr) {
 	src := in.st.pkgs[name]
 	if src == nil {
 		return val{}, in.errf("error", "unknown package %s", name)
@@ -791,7 +860,7 @@ func (in *interp) formUsePackage(args []*node) (val, *merr) {
 	// order up to the first unbound name, then signal an error); a departure
 	// that stays inside the loose constraint is not a violation.
 	for _, e := range src.exports {
-		if _, ok := src.bind[e]; !ok {
+		if _, ok := src.bind[e]; !ok && in.zone == "" {
 			in.zone = "use-package:exported-name-unbound"
 			in.zoneOn = append([]string(nil), src.exports...)
 			in.zonePk = in.st.cur
